@@ -58,7 +58,7 @@ sensitivity() {
     if [ -n "$neutral" ]; then
       if [ $st -ne 0 ]; then echo "SELFTEST-FAIL sensitivity: $id is recorded as neutralised by $neutral but the check exits $st"; rc=2; else echo "selftest sensitivity: $id ($prop): neutralised by fix $neutral, check exits 0 as expected"; fi
     elif [ "$expect" = "True" ] && [ $st -ne 1 ]; then echo "SELFTEST-FAIL sensitivity: $id ($prop) not reported (exit $st)"; echo "$out" | tail -3; rc=2;
-    else echo "selftest sensitivity: $id ($prop): exit $st $(echo "$out" | grep -c '^VIOLATION') violation line(s)"; fi
+    else echo "selftest sensitivity: $id ($prop): exit $st $(echo "$out" | grep -c '^VIOLATION') violation line(s)"; echo "$out" | grep '^violation class' | sed 's/ occurrences=.*//' | cut -c1-150 | head -${VERIF_SENS_SHOW:-0}; fi
     rm -rf "$TMPROOT/root-$id"
   done
 }
